@@ -220,6 +220,36 @@ theorem trxStep_wf {live : Bool} {t t' : Trx} {a : TrxAct} (hw : WfTrx t) (h : t
     · injection h with h; subst h
       exact ⟨w1, w2, w3, w4, w5, w6, w7, w8, w9, w10, w11, w12, w13, w14, w15, w16⟩
     · simp at h
+  | cancel w =>
+    simp only [trxStep] at h
+    split at h
+    · rename_i hs
+      injection h with h; subst h
+      cases w with
+      | rtp =>
+        simp only [Trx.get] at hs
+        obtain ⟨c1, c2, c3⟩ := wfRun_cancel w1 hs
+        refine ⟨c1, w2, w3, ?_, ?_, w6, w7, w8, w9, w10, w11, w12, ?_, ?_, w15, w16⟩
+        · intro h'; simpa [Trx.set, Trx.get, c3] using w4 h'
+        · intro h'; simpa [Trx.set, Trx.get, c3] using w5 h'
+        · intro h'; exact ⟨c2, (w13 h').2⟩
+        · intro h'; exact ⟨c2, (w14 h').2⟩
+      | srtcp =>
+        simp only [Trx.get] at hs
+        obtain ⟨c1, c2, c3⟩ := wfRun_cancel w2 hs
+        refine ⟨w1, c1, w3, ?_, ?_, w6, w7, w8, w9, w10, w11, w12, ?_, ?_, w15, w16⟩
+        · intro h'; simpa [Trx.set, Trx.get, c3] using w4 h'
+        · intro h'; simpa [Trx.set, Trx.get, c3] using w5 h'
+        · intro h'; simpa [Trx.set, Trx.get, c3] using w13 h'
+        · intro h'; exact ⟨(w14 h').1, c2⟩
+      | rrtcp =>
+        simp only [Trx.get] at hs
+        obtain ⟨c1, c2, c3⟩ := wfRun_cancel w3 hs
+        refine ⟨w1, w2, c1, w4, w5, ?_, ?_, w8, w9, w10, ?_, w12, w13, w14, w15, w16⟩
+        · intro h'; simpa [Trx.set, Trx.get, c3] using w6 h'
+        · intro h'; simpa [Trx.set, Trx.get, c3] using w7 h'
+        · intro _; exact c2
+    · simp at h
 
 theorem tptStep_wf {live : Bool} {t t' : Tpt} {a : TptAct} (hw : WfTpt t) (h : tptStep live t a = some t')
     (hz : live = true → t.dtlsStop = 0 ∧ t.iceStop = 0) : WfTpt t' := by
@@ -294,16 +324,55 @@ theorem tptStep_wf {live : Bool} {t t' : Tpt} {a : TptAct} (hw : WfTpt t) (h : t
     · injection h with h; subst h
       exact ⟨w1, w2, by simp [Tpt.monQuiet], by simp [Tpt.monQuiet], by simp [Tpt.monQuiet], w6, w7⟩
     · simp at h
-  | discard =>
+  | nstep =>
     simp only [tptStep] at h
     split at h
     · rename_i hg
       simp [Tpt.unstarted] at hg
-      injection h with h; subst h
-      exact ⟨w1, w2, by simp, by simp, by simp [Tpt.monQuiet, hg.1.2], w6, w7⟩
+      have hmq : ∀ (x : Tpt), x.monitor = t.monitor → x.monQuiet = true := by
+        intro x hx; simp [Tpt.monQuiet, hx, hg.1.2]
+      repeat' split at h
+      all_goals (try (simp at h; done))
+      all_goals (injection h with h; subst h)
+      all_goals exact ⟨w1, w2, fun _ => Or.inl (hmq _ rfl), fun _ => Or.inl (hmq _ rfl),
+        fun hq => by simp [Tpt.monQuiet, hg.1.2] at hq, w6, w7⟩
     · simp at h
 
 /-! ## the global invariant -/
+
+/-- the BUNDLE clean-up position of a transport agrees with what has been done to it; a `stop()` that got past its first
+step has set the ICE state to closed -/
+def WfN (t : Tpt) : Prop :=
+  t.nstop ≤ 4 ∧ (2 ≤ t.nstop → t.ice = .closed) ∧ (3 ≤ t.nstop → t.connClosed = true) ∧ (t.inSet = false ↔ t.nstop = 4)
+  ∧ (1 ≤ t.nstop → t.unstarted = true) ∧ (1 ≤ t.iceStop → t.ice = .closed)
+
+theorem wfN_init : WfN {} := by simp [WfN, Tpt.unstarted]
+
+theorem refd_setTrx_same {s : State} {i : Nat} {t t' : Trx} (ht : s.trxs[i]? = some t) (hk : t'.tpt = t.tpt) (k : Nat) :
+    (s.setTrx i t').refd k = s.refd k := by
+  have hany : (s.trxs.set i t').any (fun x => decide (x.tpt = k)) = s.trxs.any (fun x => decide (x.tpt = k)) := by
+    have hi : i < s.trxs.length := by
+      rcases Nat.lt_or_ge i s.trxs.length with h' | h'
+      · exact h'
+      · rw [List.getElem?_eq_none h'] at ht; simp at ht
+    have hget : s.trxs[i] = t := by
+      have := List.getElem?_eq_getElem hi; rw [ht] at this; injection this with this; exact this.symm
+    apply Bool.eq_iff_iff.mpr
+    simp only [List.any_eq_true, decide_eq_true_eq]
+    constructor
+    · rintro ⟨x, hx, hxk⟩
+      rcases List.mem_or_eq_of_mem_set hx with h1 | h1
+      · exact ⟨x, h1, hxk⟩
+      · subst h1; exact ⟨t, by rw [← hget]; exact List.getElem_mem hi, by rw [← hk]; exact hxk⟩
+    · rintro ⟨x, hx, hxk⟩
+      obtain ⟨n, hn, hnx⟩ := List.getElem_of_mem hx
+      by_cases hin : i = n
+      · subst hin
+        have : x = t := by rw [← hnx, hget]
+        subst this
+        exact ⟨t', List.mem_iff_getElem?.mpr ⟨i, by simp [hi]⟩, by rw [hk]; exact hxk⟩
+      · exact ⟨x, List.mem_iff_getElem?.mpr ⟨n, by simp [List.getElem?_set, hin, hn, hnx]⟩, hxk⟩
+  simp only [State.refd, State.setTrx, hany]
 
 def Instr.valid (s : State) : Instr → Prop
   | .stopRcv i | .stopSnd i => i < s.trxs.length
@@ -330,6 +399,12 @@ structure Inv (s : State) : Prop where
       (Instr.stopDtls k ∈ s.prog ∨ t.pump ≠ .live ∨ t.pumpCancel = true) ∧ (Instr.stopIce k ∈ s.prog ∨ t.monQuiet = true)
   coverS : s.closed = true → ∀ (sc : Sctp), s.sctp = some sc → Instr.stopSctp ∈ s.prog ∨ sctpDone sc
   refs : s.closed = false → ∀ (k : Nat) (t : Tpt), s.tpts[k]? = some t → t.unstarted = false → s.refd k = true
+  wfN : ∀ (k : Nat) (t : Tpt), s.tpts[k]? = some t → WfN t
+  unref : ∀ (k : Nat) (t : Tpt), s.tpts[k]? = some t → 1 ≤ t.nstop → s.refd k = false
+  tsetOk : ∀ (k : Nat), k ∈ s.tset ↔ ∃ t, s.tpts[k]? = some t ∧ t.inSet = true
+  tsetNodup : s.tset.Nodup
+  coverI : s.closed = true → ∀ (k : Nat) (t : Tpt), s.tpts[k]? = some t → s.refd k = true →
+      Instr.stopIce k ∈ s.prog ∨ t.ice = .closed
 
 theorem inv_init : Inv State.init := by
   constructor <;> simp [State.init, ConnsStopped]
@@ -380,13 +455,42 @@ theorem inv_setTrx {s : State} {i : Nat} {t t' : Trx} (hI : Inv s) (ht : s.trxs[
       rw [ht] at this; injection this with this; subst this
       exact ⟨t', List.mem_iff_getElem?.mpr ⟨i, by simp [List.getElem?_set, hj]⟩, by simpa [hk] using hxk⟩
     · exact ⟨x, List.mem_iff_getElem?.mpr ⟨j, by simp [List.getElem?_set, hij, hj, hjx]⟩, hxk⟩
+  · exact hI.wfN
+  · intro k tk hk' hn
+    rw [refd_setTrx_same ht hk]; exact hI.unref k tk hk' hn
+  · exact hI.tsetOk
+  · exact hI.tsetNodup
+  · intro hc k tk hk' hr
+    rw [refd_setTrx_same ht hk] at hr
+    exact hI.coverI hc k tk hk' hr
 
 /-- frame: one transport record replaced, program unchanged -/
-theorem inv_setTpt {s : State} {k : Nat} {t t' : Tpt} (hI : Inv s) (ht : s.tpts[k]? = some t) (hw : WfTpt t')
-    (hz : s.closed = false → t'.dtlsStop = 0 ∧ t'.iceStop = 0)
+theorem getElem?_set_self'' {α} {l : List α} {i : Nat} {a b : α} (h : l[i]? = some a) : (l.set i b)[i]? = some b := by
+  have : i < l.length := by
+    rcases Nat.lt_or_ge i l.length with h' | h'
+    · exact h'
+    · rw [List.getElem?_eq_none h'] at h; simp at h
+  simp [this]
+
+theorem exists_set_iff {l : List Tpt} {k : Nat} {t t' : Tpt} (ht : l[k]? = some t) (j : Nat) (P : Tpt → Prop) :
+    (∃ x, (l.set k t')[j]? = some x ∧ P x) ↔ (if j = k then P t' else ∃ x, l[j]? = some x ∧ P x) := by
+  by_cases hjk : j = k
+  · subst hjk
+    simp [getElem?_set_self'' ht]
+  · have : (l.set k t')[j]? = l[j]? := by rw [List.getElem?_set]; simp [Ne.symm hjk]
+    simp [hjk, this]
+
+/-- frame: one transport record replaced (and, if the record left the connection's transport set, the set updated),
+program unchanged -/
+theorem inv_setTpt' {s : State} {k : Nat} {t t' : Tpt} (ts' : List Nat) (hI : Inv s) (ht : s.tpts[k]? = some t)
+    (hw : WfTpt t') (hz : s.closed = false → t'.dtlsStop = 0 ∧ t'.iceStop = 0)
     (h1 : s.closed = true → (t.pump ≠ .live ∨ t.pumpCancel = true) → (t'.pump ≠ .live ∨ t'.pumpCancel = true))
     (h2 : s.closed = true → t.monQuiet = true → t'.monQuiet = true)
-    (hu : s.closed = false → t'.unstarted = false → t.unstarted = false ∨ s.refd k = true) : Inv (s.setTpt k t') := by
+    (hu : s.closed = false → t'.unstarted = false → t.unstarted = false ∨ s.refd k = true)
+    (hn : WfN t') (hn2 : t'.nstop = t.nstop ∨ (1 ≤ t'.nstop → s.refd k = false))
+    (hice : t.ice = .closed → t'.ice = .closed)
+    (hts : ts' = s.tset ∧ t'.inSet = t.inSet ∨ ts' = s.tset.erase k ∧ t'.inSet = false) :
+    Inv { s.setTpt k t' with tset := ts' } := by
   have hlen : (s.tpts.set k t').length = s.tpts.length := by simp
   constructor
   · exact hI.wfT
@@ -416,6 +520,52 @@ theorem inv_setTpt {s : State} {k : Nat} {t t' : Tpt} (hI : Inv s) (ht : s.tpts[
       · exact hr k t ht h
       · exact h
     exact this
+  · exact forall_set hI.wfN hn
+  · have : ∀ (j : Nat) (a : Tpt), (s.tpts.set k t')[j]? = some a → 1 ≤ a.nstop → s.refd j = false := by
+      refine forall_set hI.unref ?_
+      rcases hn2 with h | h
+      · rw [h]; exact hI.unref k t ht
+      · exact h
+    exact this
+  · intro j
+    show j ∈ ts' ↔ ∃ x, (s.tpts.set k t')[j]? = some x ∧ x.inSet = true
+    rw [exists_set_iff ht j (fun x => x.inSet = true)]
+    have hk_spec := hI.tsetOk k
+    rcases hts with ⟨h, hin⟩ | ⟨h, hin⟩
+    · subst h
+      by_cases hjk : j = k
+      · subst hjk; simp only [if_true]; rw [hI.tsetOk j, hin]
+        constructor
+        · rintro ⟨x, hx, hxs⟩; rw [ht] at hx; injection hx with hx; subst hx; exact hxs
+        · intro h; exact ⟨t, ht, h⟩
+      · simp only [hjk, if_false]; exact hI.tsetOk j
+    · subst h
+      by_cases hjk : j = k
+      · subst hjk; simp only [if_true, hin]
+        constructor
+        · intro hm; exact absurd hm (List.Nodup.not_mem_erase hI.tsetNodup)
+        · intro h; simp at h
+      · simp only [hjk, if_false]
+        rw [List.mem_erase_of_ne hjk]; exact hI.tsetOk j
+  · rcases hts with ⟨h, _⟩ | ⟨h, _⟩
+    · subst h; exact hI.tsetNodup
+    · subst h; exact hI.tsetNodup.erase k
+  · intro hc
+    have : ∀ (j : Nat) (a : Tpt), (s.tpts.set k t')[j]? = some a → s.refd j = true →
+        Instr.stopIce j ∈ s.prog ∨ a.ice = .closed := by
+      refine forall_set (hI.coverI hc) ?_
+      intro hr
+      exact (hI.coverI hc k t ht hr).imp id hice
+    exact this
+
+theorem inv_setTpt {s : State} {k : Nat} {t t' : Tpt} (hI : Inv s) (ht : s.tpts[k]? = some t) (hw : WfTpt t')
+    (hz : s.closed = false → t'.dtlsStop = 0 ∧ t'.iceStop = 0)
+    (h1 : s.closed = true → (t.pump ≠ .live ∨ t.pumpCancel = true) → (t'.pump ≠ .live ∨ t'.pumpCancel = true))
+    (h2 : s.closed = true → t.monQuiet = true → t'.monQuiet = true)
+    (hu : s.closed = false → t'.unstarted = false → t.unstarted = false ∨ s.refd k = true)
+    (hn : WfN t') (hn2 : t'.nstop = t.nstop ∨ (1 ≤ t'.nstop → s.refd k = false))
+    (hice : t.ice = .closed → t'.ice = .closed) (hin : t'.inSet = t.inSet) : Inv (s.setTpt k t') :=
+  inv_setTpt' s.tset hI ht hw hz h1 h2 hu hn hn2 hice (Or.inl ⟨rfl, hin⟩)
 
 /-- frame: the running `stop()` call returned -/
 theorem inv_pop {s : State} {ins : Instr} {rest : List Instr} (hI : Inv s) (hp : s.prog = ins :: rest)
@@ -423,7 +573,7 @@ theorem inv_pop {s : State} {ins : Instr} {rest : List Instr} (hI : Inv s) (hp :
       | .stopRcv i => ∀ t, s.trxs[i]? = some t → rcvDone t
       | .stopSnd i => ∀ t, s.trxs[i]? = some t → t.sndQuiet = true
       | .stopDtls k => ∀ t, s.tpts[k]? = some t → t.pump ≠ .live ∨ t.pumpCancel = true
-      | .stopIce k => ∀ t, s.tpts[k]? = some t → t.monQuiet = true
+      | .stopIce k => ∀ t, s.tpts[k]? = some t → t.monQuiet = true ∧ t.ice = .closed
       | .stopSctp => ∀ sc, s.sctp = some sc → sctpDone sc) : Inv s.pop := by
   have hclosed : s.closed = true := by
     cases hc : s.closed with
@@ -469,7 +619,7 @@ theorem inv_pop {s : State} {ins : Instr} {rest : List Instr} (hI : Inv s) (hp :
       · exact Or.inr h
     · rcases this.2 with h | h
       · rcases hmem _ h with h' | h'
-        · subst h'; exact Or.inr (hd t ht)
+        · subst h'; exact Or.inr (hd t ht).1
         · exact Or.inl h'
       · exact Or.inr h
   · intro _ sc hsc
@@ -481,7 +631,18 @@ theorem inv_pop {s : State} {ins : Instr} {rest : List Instr} (hI : Inv s) (hp :
       · exact Or.inl h'
     · exact Or.inr h
   · intro hc; simp [State.pop, hclosed] at hc
-
+  · exact hI.wfN
+  · exact hI.unref
+  · exact hI.tsetOk
+  · exact hI.tsetNodup
+  · intro _ k t ht hr
+    have := hI.coverI hclosed k t ht hr
+    simp only [State.pop, hp, List.tail_cons]
+    rcases this with h | h
+    · rcases hmem _ h with h' | h'
+      · subst h'; exact Or.inr (hd t ht).2
+      · exact Or.inl h'
+    · exact Or.inr h
 
 theorem closed_of_prog {s : State} (hI : Inv s) {ins rest} (hp : s.prog = ins :: rest) : s.closed = true := by
   cases hc : s.closed with
@@ -649,6 +810,10 @@ theorem inv_closeNext_dtls {s s' : State} {l : CLabel} {k : Nat} {rest : List In
     · simp
     · exact fun _ h => h
     · simp [hcl]
+    · have := hI.wfN k t ht; simp_all [WfN, Tpt.unstarted]
+    · exact Or.inl rfl
+    · first | exact fun h => h | exact fun _ => rfl
+    · rfl
   · split at h
     · rename_i h0 h1
       simp only [Option.some.injEq, Prod.mk.injEq] at h; obtain ⟨-, rfl⟩ := h
@@ -658,6 +823,10 @@ theorem inv_closeNext_dtls {s s' : State} {l : CLabel} {k : Nat} {rest : List In
       · cases hq : t.pump <;> simp
       · exact fun _ h => h
       · simp [hcl]
+      · have := hI.wfN k t ht; simp_all [WfN, Tpt.unstarted]
+      · exact Or.inl rfl
+      · first | exact fun h => h | exact fun _ => rfl
+      · rfl
     · rename_i h0 h1
       simp only [Option.some.injEq, Prod.mk.injEq] at h; obtain ⟨-, rfl⟩ := h
       have h2 : t.dtlsStop = 2 := by have := hw.2.2.2.2.2.1; omega
@@ -668,6 +837,10 @@ theorem inv_closeNext_dtls {s s' : State} {l : CLabel} {k : Nat} {rest : List In
         · simp
         · exact fun _ h => h
         · simp [hcl]
+        · have := hI.wfN k t ht; simp_all [WfN, Tpt.unstarted]
+        · exact Or.inl rfl
+        · first | exact fun h => h | exact fun _ => rfl
+        · rfl
       refine inv_pop hI' (ins := .stopDtls k) (rest := rest) (by simpa [State.setTpt] using hp) ?_
       intro t'' ht''
       simp only [State.setTpt] at ht''
@@ -698,6 +871,10 @@ theorem inv_closeNext_ice {s s' : State} {l : CLabel} {k : Nat} {rest : List Ins
       · simp
       · simp [Tpt.monQuiet]
       · simp [hcl]
+      · have := hI.wfN k t ht; simp_all [WfN, Tpt.unstarted]
+      · exact Or.inl rfl
+      · first | exact fun h => h | exact fun _ => rfl
+      · rfl
     · rename_i hic
       simp only [Option.some.injEq, Prod.mk.injEq] at h; obtain ⟨-, rfl⟩ := h
       apply inv_setTpt hI ht
@@ -706,6 +883,10 @@ theorem inv_closeNext_ice {s s' : State} {l : CLabel} {k : Nat} {rest : List Ins
       · simp
       · simp [Tpt.monQuiet]
       · simp [hcl]
+      · have := hI.wfN k t ht; simp_all [WfN, Tpt.unstarted]
+      · exact Or.inl rfl
+      · first | exact fun h => h | exact fun _ => rfl
+      · rfl
   · split at h
     · rename_i h0 h1
       split at h
@@ -716,6 +897,10 @@ theorem inv_closeNext_ice {s s' : State} {l : CLabel} {k : Nat} {rest : List Ins
         · simp
         · simp [Tpt.monQuiet]
         · simp [hcl]
+        · have := hI.wfN k t ht; simp_all [WfN, Tpt.unstarted]
+        · exact Or.inl rfl
+        · first | exact fun h => h | exact fun _ => rfl
+        · rfl
       · simp at h
     · rename_i h0 h1
       split at h
@@ -728,12 +913,18 @@ theorem inv_closeNext_ice {s s' : State} {l : CLabel} {k : Nat} {rest : List Ins
           · simp
           · simp [Tpt.monQuiet]
           · simp [hcl]
+          · have := hI.wfN k t ht; simp_all [WfN, Tpt.unstarted]
+          · exact Or.inl rfl
+          · first | exact fun h => h | exact fun _ => rfl
+          · rfl
         refine inv_pop hI' (ins := .stopIce k) (rest := rest) (by simpa [State.setTpt] using hp) ?_
         intro t'' ht''
         simp only [State.setTpt] at ht''
         rw [getElem?_set_self' ht] at ht''
         injection ht'' with ht''; subst ht''
-        simpa [Tpt.monQuiet] using hq
+        refine ⟨by simpa [Tpt.monQuiet] using hq, ?_⟩
+        have h2 : t.iceStop = 2 := by have := hw.2.2.2.2.2.2; omega
+        exact (hI.wfN k t ht).2.2.2.2.2 (by omega)
       · simp at h
 
 theorem inv_setSctp {s : State} {sc sc' : Sctp} (hI : Inv s) (hs : s.sctp = some sc) (hk : sc'.tpt = sc.tpt)
@@ -761,6 +952,15 @@ theorem inv_setSctp {s : State} {sc sc' : Sctp} (hI : Inv s) (hs : s.sctp = some
   · intro hc k t hk' hu
     have := hI.refs hc k t hk' hu
     simpa [State.refd, hs, hk] using this
+  · exact hI.wfN
+  · intro k t hk' hn
+    have := hI.unref k t hk' hn
+    simpa [State.refd, hs, hk] using this
+  · exact hI.tsetOk
+  · exact hI.tsetNodup
+  · intro hc k t hk' hr
+    have hr' : s.refd k = true := by simpa [State.refd, hs, hk] using hr
+    exact hI.coverI hc k t hk' hr'
 
 theorem inv_closeNext_sctp {s s' : State} {l : CLabel} {rest : List Instr} (hI : Inv s)
     (hp : s.prog = .stopSctp :: rest) (h : s.closeNext = some (l, s')) : Inv s' := by
@@ -810,6 +1010,11 @@ theorem inv_closeNext_nil {s s' : State} {l : CLabel} (hI : Inv s)
     · exact hI.coverK
     · exact hI.coverS
     · exact hI.refs
+    · exact hI.wfN
+    · exact hI.unref
+    · exact hI.tsetOk
+    · exact hI.tsetNodup
+    · exact hI.coverI
   · simp at h
 
 theorem inv_closeNext {s s' : State} {l : CLabel} (hI : Inv s) (h : s.closeNext = some (l, s')) : Inv s' := by
